@@ -4,6 +4,13 @@
 //   upload{id,fn,ext,mime,size,kind,cipher,gzin}  -> operation.UploadData / operation.Upload
 //   fetch{id,via,rng}                              -> util.ReadUrlAsStream / util.ReadUrl / util.Get /
 //                                                     filer.StreamContent / filer.ChunkReadAt (chunk view path)
+//   put{id,fn,ext,mime,size,kind,gzin,md5,nameat}  -> the same bytes through a raw HTTP request to the volume
+//                                                     server: fn=Put (body = data, Content-Type / Content-Encoding /
+//                                                     Content-MD5 request headers) or fn=Multipart (hand-made form:
+//                                                     file name in the part / nowhere / only an extension in the URL /
+//                                                     a form field first and the file in the second part)
+//   fetch via rcloser|download|head                -> util.ReadUrlAsReaderCloser (with and without a range header),
+//                                                     operation.LookupFileId (util.Post) + util.DownloadFile, util.Head
 //   store{id,case,i}                               -> a (possibly malformed) gzip stream stored flagged
 //                                                     as compressed through the volume server's POST handler
 //   decomp{fn,base,case,i}                         -> util.DecompressData / MaybeDecompressData / GzipData /
@@ -16,12 +23,19 @@ package main
 import (
 	"bytes"
 	"compress/gzip"
+	"crypto/md5"
+	"encoding/base64"
+	"encoding/json"
 	"fmt"
+	"io"
 	"io/ioutil"
 	"math/rand"
 	"mime/multipart"
 	"net/http"
 	"net/textproto"
+	"net/url"
+	"path"
+	"strconv"
 	"strings"
 	"sync/atomic"
 	"time"
@@ -38,13 +52,18 @@ import (
 	"verifharness/tr"
 )
 
-var sizes = map[string]int{"s0": 0, "s1": 1, "s100": 100, "s16k": 16 * 1024, "s16k1": 16*1024 + 1, "s70k": 70000, "s300k": 300000}
+// the volume server of this driver accepts uploads of at most limitMB MiB
+const limitMB = 1
+
+var sizes = map[string]int{"s0": 0, "s1": 1, "s100": 100, "s16k": 16 * 1024, "s16k1": 16*1024 + 1, "s70k": 70000, "s300k": 300000,
+	"s1m": limitMB << 20, "s1m1": limitMB<<20 + 1, "s1m2": limitMB<<20 + 2}
 
 var exts = map[string]string{"none": "", "txt": "notes.txt", "jpg": "photo.jpg", "gz": "archive.gz", "dottxt": ".txt",
 	"json": "data.json", "weird": `a "b" \c ü.dat`, "path": "dir/sub/page.html"}
 
 var mimeTypes = map[string]string{"none": "", "text": "text/plain", "image": "image/png", "json": "application/json",
-	"octet": "application/octet-stream", "xml": "application/xml", "gzip": "application/gzip"}
+	"octet": "application/octet-stream", "xml": "application/xml", "gzip": "application/gzip",
+	"form": "application/x-www-form-urlencoded", "jpeg": "image/jpeg"}
 
 func genData(kind string, n int, seed int64) []byte {
 	b := make([]byte, 0, n+64)
@@ -87,6 +106,9 @@ func stdGzip(b []byte) []byte {
 type upl struct {
 	fid    string
 	url    string
+	name   string // the file name given to the upload ("" = none)
+	tried  bool   // a raw request was sent: fetches are attempted whatever the answer was
+	field  []byte // the value of the form field sent in front of the file part
 	data   []byte // what the caller handed to the upload function
 	clear  []byte // the bytes a reader is entitled to: data, or gunzip(data) for declared-compressed input
 	stored []byte
@@ -124,6 +146,9 @@ func seg(u *upl, got []byte, off int) tr.Ev {
 	}
 	if i := bytes.Index(u.clear, got); i >= 0 && len(got) > 0 {
 		return tr.Ev{"src": "d", "off": i, "len": len(got)}
+	}
+	if len(u.field) > 0 && bytes.Equal(got, u.field) {
+		return tr.Ev{"src": "field", "off": 0, "len": len(got)}
 	}
 	if u.data != nil && !bytes.Equal(u.data, u.clear) {
 		if i := bytes.Index(u.data, got); i >= 0 && len(got) > 0 {
@@ -164,6 +189,7 @@ func (r *runner) upload(e tr.Ev) {
 	var res *operation.UploadResult
 	var err error
 	name, mt := exts[tr.S(e, "ext")], mimeTypes[tr.S(e, "mime")]
+	u.name = name
 	if tr.S(e, "fn") == "Upload" {
 		res, err, _ = operation.Upload(u.url, name, tr.B(e, "cipher"), bytes.NewReader(u.data), gzin, mt, nil, "")
 	} else {
@@ -177,6 +203,123 @@ func (r *runner) upload(e tr.Ev) {
 	e["gzip"] = res.Gzip > 0
 	e["haskey"] = len(res.CipherKey) > 0
 	e["rsize"] = int(res.Size)
+}
+
+func md5b64(b []byte) string {
+	h := md5.Sum(b)
+	return base64.StdEncoding.EncodeToString(h[:])
+}
+
+// put: the bytes enter through a raw HTTP request, the way curl, a browser form or another program's HTTP client
+// sends them. Everything the server answered is recorded; fetches are attempted whatever the answer was.
+func (r *runner) put(e tr.Ev) {
+	id := tr.I(e, "id")
+	n := sizes[tr.S(e, "size")]
+	d := genData(tr.S(e, "kind"), n, r.seed+int64(id))
+	u := &upl{fid: r.newFid(), data: d, clear: d, tried: true}
+	gzin := tr.B(e, "gzin")
+	e["validgz"] = true
+	if gzin {
+		switch tr.S(e, "kind") {
+		case "gzprefix", "gzhdr":
+			e["validgz"] = false
+		default:
+			u.data = stdGzip(d)
+		}
+	}
+	e["len"] = len(u.clear)
+	e["status"] = 0
+	e["rsize"] = 0
+	e["rname"] = ""
+	e["rmd5"] = "none"
+	e["msg"] = ""
+	r.ups[id] = u
+	name, mt := exts[tr.S(e, "ext")], mimeTypes[tr.S(e, "mime")]
+	nameat := tr.S(e, "nameat")
+	u.url = "http://" + r.url + "/" + u.fid
+	target := u.url
+	if nameat == "url" {
+		// on upload the URL can only carry an extension; on download a whole file name
+		target = u.url + path.Ext(name)
+		u.url = "http://" + r.url + "/" + strings.Replace(u.fid, ",", "/", 1) + "/" + url.PathEscape(name)
+		u.name = name
+	}
+	sum := ""
+	switch tr.S(e, "md5") {
+	case "right":
+		sum = md5b64(u.clear)
+	case "wrong":
+		sum = md5b64(append(append([]byte{}, u.clear...), 'x'))
+	case "wire":
+		sum = md5b64(u.data)
+	}
+	var req *http.Request
+	if tr.S(e, "fn") == "Put" {
+		req, _ = http.NewRequest("PUT", target, bytes.NewReader(u.data))
+		if mt != "" {
+			req.Header.Set("Content-Type", mt)
+		}
+		if gzin {
+			req.Header.Set("Content-Encoding", "gzip")
+		}
+	} else {
+		var buf bytes.Buffer
+		mw := multipart.NewWriter(&buf)
+		if nameat == "second" {
+			u.field = []byte("a note that travels in front of the file")
+			fw, _ := mw.CreateFormField("note")
+			fw.Write(u.field)
+		}
+		h := make(textproto.MIMEHeader)
+		if nameat == "part" || nameat == "second" {
+			h.Set("Content-Disposition", fmt.Sprintf(`form-data; name="file"; filename="%s"`,
+				strings.NewReplacer(`\`, `\\`, `"`, `\"`).Replace(name)))
+			u.name = path.Base(name)
+		} else {
+			h.Set("Content-Disposition", `form-data; name="file"`)
+		}
+		if mt != "" {
+			h.Set("Content-Type", mt)
+		}
+		if gzin {
+			h.Set("Content-Encoding", "gzip")
+		}
+		pw, _ := mw.CreatePart(h)
+		pw.Write(u.data)
+		mw.Close()
+		req, _ = http.NewRequest("POST", target, &buf)
+		req.Header.Set("Content-Type", mw.FormDataContentType())
+	}
+	if sum != "" {
+		req.Header.Set("Content-MD5", sum)
+	}
+	cl := &http.Client{Timeout: 30 * time.Second}
+	resp, err := cl.Do(req)
+	if err != nil {
+		e["msg"] = "transport"
+		return
+	}
+	body, _ := ioutil.ReadAll(resp.Body)
+	resp.Body.Close()
+	e["status"] = resp.StatusCode
+	var ret operation.UploadResult
+	json.Unmarshal(body, &ret)
+	e["rsize"] = int(ret.Size)
+	e["rname"] = ret.Name
+	if ret.Error != "" {
+		e["msg"] = strings.SplitN(ret.Error, " ", 3)[0]
+	}
+	if m := resp.Header.Get("Content-MD5"); m != "" {
+		e["rmd5"] = "other"
+		if m == md5b64(u.clear) {
+			e["rmd5"] = "d"
+		} else if m == md5b64(u.data) {
+			e["rmd5"] = "asgiven"
+		}
+	}
+	u.ok = resp.StatusCode >= 200 && resp.StatusCode < 300
+	// the chunk record a client keeps of this upload (filer.StreamContent / ChunkReadAt read through it)
+	u.res = &operation.UploadResult{Size: uint32(len(u.clear))}
 }
 
 // store: POST a gzip stream (valid or corrupted) flagged as compressed, the way a client that compressed
@@ -240,16 +383,27 @@ func resolveRange(name string, l int) (full bool, off, size int) {
 	return
 }
 
+func gunzip(b []byte) ([]byte, error) {
+	zr, err := gzip.NewReader(bytes.NewReader(b))
+	if err != nil {
+		return nil, err
+	}
+	return ioutil.ReadAll(zr)
+}
+
 func (r *runner) fetch(e tr.Ev) {
 	u := r.ups[tr.I(e, "id")]
 	e["res"] = "err"
 	e["off"], e["size"], e["full"] = 0, 0, false
 	e["seg"] = tr.Ev{"src": "none", "off": 0, "len": 0}
+	e["raw"] = tr.Ev{"src": "none", "off": 0, "len": 0}
 	e["applicable"] = false
-	if u == nil || !u.ok {
+	e["hdr"], e["status"], e["cenc"], e["dec"], e["fname"], e["clen"] = "", 0, "", "none", "na", -1
+	if u == nil || !(u.ok || u.tried) {
 		return
 	}
 	l := len(u.clear)
+	via := tr.S(e, "via")
 	full, off, size := resolveRange(tr.S(e, "rng"), l)
 	if off < 0 || (!full && size <= 0) || off+size > l {
 		return // the range does not exist for this length
@@ -263,7 +417,7 @@ func (r *runner) fetch(e tr.Ev) {
 	isGz := u.res.Gzip > 0
 	var got []byte
 	var err error
-	switch tr.S(e, "via") {
+	switch via {
 	case "stream":
 		_, err = util.ReadUrlAsStream(u.url, key, isGz, full, int64(off), size, func(d []byte) { got = append(got, d...) })
 	case "readurl":
@@ -277,6 +431,88 @@ func (r *runner) fetch(e tr.Ev) {
 			return
 		}
 		got, _, err = util.Get(u.url)
+	case "rcloser":
+		// what the S3 part copy does: the whole source, or the range the client named
+		if key != nil {
+			e["applicable"] = false
+			return
+		}
+		hdr := ""
+		switch tr.S(e, "rng") {
+		case "full":
+		case "tail1", "half2":
+			hdr = fmt.Sprintf("bytes=-%d", size) // the last size bytes
+		case "inner":
+			off, size = 1, l-1
+			hdr = "bytes=1-" // from byte 1 to the end
+			e["off"], e["size"] = off, size
+		default:
+			hdr = fmt.Sprintf("bytes=%d-%d", off, off+size-1)
+		}
+		e["hdr"] = hdr
+		var rc io.ReadCloser
+		rc, err = util.ReadUrlAsReaderCloser(u.url, hdr)
+		if err == nil {
+			got, err = ioutil.ReadAll(rc)
+			rc.Close()
+		}
+	case "download":
+		// what `weed download`, the replication source and the S3 object copy do
+		if key != nil || !full {
+			e["applicable"] = false
+			return
+		}
+		target := u.url
+		if u.url == "http://"+r.url+"/"+u.fid {
+			target, err = operation.LookupFileId(func() string { return r.c.MasterAddr }, u.fid)
+			if err != nil {
+				break
+			}
+		}
+		var fname string
+		var h http.Header
+		var resp *http.Response
+		fname, h, resp, err = util.DownloadFile(target)
+		if err != nil {
+			break
+		}
+		got, err = ioutil.ReadAll(resp.Body)
+		util.CloseResponse(resp)
+		e["status"] = resp.StatusCode
+		e["cenc"] = h.Get("Content-Encoding")
+		e["raw"] = seg(u, got, 0)
+		if err == nil && h.Get("Content-Encoding") == "gzip" {
+			// the caller asked for nothing special and got a compressed transfer: undo it as the header says
+			e["dec"] = "gunzip"
+			got, err = gunzip(got)
+		}
+		switch {
+		case fname == "":
+			e["fname"] = "none"
+		case fname == u.name:
+			e["fname"] = "same"
+		default:
+			e["fname"] = "other"
+		}
+		if err == nil && resp.StatusCode >= 300 {
+			err = fmt.Errorf("status %d", resp.StatusCode)
+		}
+	case "head":
+		if key != nil || !full {
+			e["applicable"] = false
+			return
+		}
+		var h http.Header
+		h, err = util.Head(u.url)
+		if err != nil {
+			break
+		}
+		e["cenc"] = h.Get("Content-Encoding")
+		if n, perr := strconv.Atoi(h.Get("Content-Length")); perr == nil {
+			e["clen"] = n
+		}
+		e["res"] = "ok"
+		return
 	case "streamcontent":
 		chunk := u.res.ToPbFileChunk(u.fid, 0)
 		var w bytes.Buffer
@@ -420,6 +656,8 @@ func (r *runner) runExec(ex []tr.Ev) []tr.Ev {
 			switch ev {
 			case "upload":
 				r.upload(e)
+			case "put":
+				r.put(e)
 			case "store":
 				e["status"] = 0
 				r.store(e)
@@ -445,7 +683,7 @@ func main() {
 	o := tr.ParseFlags()
 	w := tr.NewWriter(o.Out)
 	defer w.Close()
-	c, err := cluster.New(cluster.Options{Volumes: 1})
+	c, err := cluster.New(cluster.Options{Volumes: 1, FileSizeLimitMB: limitMB})
 	if err != nil {
 		tr.Fatal("cluster: %v", err)
 	}
